@@ -20,7 +20,10 @@ pub fn def() -> CheckDef {
                up to 12 valid colours per network: the states the coloured result associates with colour c must equal (a) the result computed on \
                the fully specified network the HARNESS builds by substituting the truth tables of c for the unknown functions, and (b) the result \
                on the library's own pick_witness(c) network (compared after matching state variables by name). Additionally a copy of the \
-               network with one extra regulation constraint must give the same states for every colour that stays valid. Non-trivial: the \
+               network with one extra regulation constraint must give the same states for every colour that stays valid. One case in 25 is a WIDE network \
+               (5-6 stable inputs, t := f(inputs) with an unknown f, i.e. 2^32 / 2^64 colours, more BDD variables than an f64 mantissa has bits) with a \
+               temporal formula over a sub-formula that holds for exactly one colour (f = a random Boolean function, pinned by a forall/jump formula): \
+               the states of that colour and of two other colours must equal the result on the network with f replaced by the function. Non-trivial: the \
                formula's answer differs between at least two of the compared colours; distinct by (network, formula).",
         assumptions: &["the harness's instantiation (truth table -> DNF) is independent of the library; regulation flags of the instantiated network are dropped"],
         cases: |t| (if t == Tier::Quick { 2500 } else { 120_000 }) + super::big::count(t),
@@ -28,7 +31,7 @@ pub fn def() -> CheckDef {
             let m = if t == Tier::Quick { 1 } else { 30 };
             let big_min = super::big::count(t) / 2;
             vec![
-                ("big_model_cases_completed", big_min),("distinct_nontrivial", 150 * m), ("colours_compared", 5000 * m), ("networks_with_shared_symbol", 50 * m), ("witness_comparisons", 2000 * m), ("constraint_variant_comparisons", 500 * m)]
+                ("big_model_cases_completed", big_min),("distinct_nontrivial", 150 * m), ("colours_compared", 5000 * m), ("networks_with_shared_symbol", 50 * m), ("witness_comparisons", 2000 * m), ("constraint_variant_comparisons", 500 * m), ("wide_colours_compared", 150 * m), ("wide_cases_with_colour_specific_answer", 20 * m)]
         },
         run,
         prelude: None,
@@ -99,6 +102,9 @@ fn run(rng: &mut Rng, idx: u64, tier: Tier) -> CaseOut {
     if idx >= small {
         // bundled benchmark-size models (child process, see bigrun.rs / big.rs)
         return super::big::run("C20", idx - small, rng, tier);
+    }
+    if idx % 25 == 7 {
+        return wide_case(rng);
     }
     let mut nopts = NetOpts::default();
     nopts.kind_weights = [2, 5, 5, 3];
@@ -289,6 +295,182 @@ fn run(rng: &mut Rng, idx: u64, tier: Tier) -> CaseOut {
     out.nontrivial = answers.windows(2).any(|w| w[0] != w[1]);
     if out.nontrivial {
         out.sample = Some(case_json(&world, &[text], vec![("colours_compared", J::Int(valid.len() as i64)), ("verdict", J::s("held"))]));
+    }
+    out
+}
+
+// ---------------------------------------------------------------------------------------------
+// wide networks: one unknown function of 5-6 stable inputs
+
+fn gen_cond(rng: &mut Rng, m: usize, depth: usize) -> Expr {
+    if depth == 0 || rng.chance(1, 4) {
+        let v = Expr::Var(rng.below(m));
+        return if rng.coin() { Expr::Not(Box::new(v)) } else { v };
+    }
+    let a = Box::new(gen_cond(rng, m, depth - 1));
+    let b = Box::new(gen_cond(rng, m, depth - 1));
+    match rng.below(5) {
+        0 => Expr::And(a, b),
+        1 => Expr::Or(a, b),
+        2 => Expr::Xor(a, b),
+        3 => Expr::Imp(a, b),
+        _ => Expr::Iff(a, b),
+    }
+}
+
+fn wide_aeon(m: usize, t_update: &str, u_negated: bool) -> String {
+    let mut s = String::new();
+    for i in 1..=m {
+        s.push_str(&format!("a{i} -> a{i}\n$a{i}: a{i}\na{i} -?? t\n"));
+    }
+    s.push_str(&format!("$t: {t_update}\n"));
+    if u_negated {
+        s.push_str("t -| u\n$u: !t\n");
+    } else {
+        s.push_str("t -> u\n$u: t\n");
+    }
+    s
+}
+
+/// States (bit i = variable i of `names`) of a raw result for the colour given as literals of
+/// parameter variables (empty for a fully specified network); spare variables are 0.
+fn wide_states(graph: &biodivine_lib_param_bn::symbolic_async_graph::SymbolicAsyncGraph, set: &biodivine_lib_bdd::Bdd, names: &[String], colour: &[(biodivine_lib_bdd::BddVariable, bool)]) -> Vec<u32> {
+    let ctx = graph.symbolic_context();
+    let state_vars: Vec<_> = names.iter().map(|n| ctx.get_state_variable(ctx.find_network_variable(n).unwrap())).collect();
+    let mut val = biodivine_lib_bdd::BddValuation::all_false(ctx.bdd_variable_set().num_vars());
+    for (v, b) in colour {
+        val.set_value(*v, *b);
+    }
+    let mut out = Vec::new();
+    for s in 0..(1u32 << names.len()) {
+        for (i, v) in state_vars.iter().enumerate() {
+            val.set_value(*v, (s >> i) & 1 == 1);
+        }
+        if set.eval_in(&val) {
+            out.push(s);
+        }
+    }
+    out
+}
+
+fn wide_case(rng: &mut Rng) -> CaseOut {
+    use biodivine_hctl_model_checker::mc_utils::get_extended_symbolic_graph;
+    use biodivine_hctl_model_checker::model_checking::model_check_formula_dirty;
+    use biodivine_lib_param_bn::BooleanNetwork;
+    let m = if rng.chance(1, 4) { 5 } else { 6 };
+    let u_negated = rng.chance(1, 3);
+    let mut names: Vec<String> = (1..=m).map(|i| format!("a{i}")).collect();
+    names.push("t".to_string());
+    names.push("u".to_string());
+    let args: Vec<String> = (1..=m).map(|i| format!("a{i}")).collect();
+    let cond = gen_cond(rng, m, 3);
+    let cond_hctl = cond.render(&names).replace('!', "~");
+    // holds (in every state) exactly for the colour f = cond
+    let pin = format!("(V{{x}}: (@{{x}}: ((({cond_hctl} & ~t) => (EX t)) & (((~{cond_hctl}) & t) => (EX (~t))))))");
+    let lits = ["t", "u", "~t", "~u", "a1", "~a2", "(t & u)", "(t ^ u)", "(t | ~a1)", "(u & a2)", "(~t & ~u)"];
+    let s1 = *rng.pick(&lits);
+    let s2 = *rng.pick(&lits);
+    let x = format!("({pin} & {s1})");
+    let y = format!("((~{pin}) | {s1})");
+    let text = match rng.below(12) {
+        0 => format!("(AF {x})"),
+        1 => format!("(EG {y})"),
+        2 => format!("(EF {y})"),
+        3 => format!("(AG {y})"),
+        4 => format!("({y} EU ({pin} & {s2}))"),
+        5 => format!("({s2} AU {x})"),
+        6 => format!("(AX (AF {x}))"),
+        7 => format!("(EX (EG {y}))"),
+        8 => format!("(EG ((~{pin}) | (EF {s1})))"),
+        9 => format!("(AF ({x} | (AG {s2})))"),
+        10 => format!("(~(EG ((~{pin}) | (~{s1}))))"),
+        _ => format!("((AF {s1}) & (EG {y}))"),
+    };
+    let coloured_aeon = wide_aeon(m, &format!("f({})", args.join(", ")), u_negated);
+    let mut out = CaseOut::new(format!("wide|{coloured_aeon}|{text}"));
+    out.count("wide_cases");
+    let detail = |why: &str, extra: Vec<(&str, J)>| {
+        let mut items = vec![("network", J::s(&coloured_aeon)), ("formulae", J::arr_str(&[text.clone()])), ("pinned_function", J::s(&cond.render(&names))), ("why", J::s(why))];
+        items.extend(extra);
+        J::obj(items)
+    };
+    let built = libg::guarded(|| -> Result<_, String> {
+        let bn = BooleanNetwork::try_from(coloured_aeon.as_str())?;
+        get_extended_symbolic_graph(&bn, 1)
+    });
+    let graph = match built {
+        Ok(Ok(g)) => g,
+        Ok(Err(e)) => {
+            out.inconclusive(&format!("wide network rejected: {}", e.chars().take(40).collect::<String>()));
+            return out;
+        }
+        Err(p) => {
+            out.violate(&libg::panic_signature(&p), format!("panic while building the wide network: {p}"), detail(&p, vec![]));
+            return out;
+        }
+    };
+    let coloured = match call(|| model_check_formula_dirty(&text, &graph)) {
+        Call::Ok(s) => s,
+        Call::Err(e) => {
+            out.violate("error on a valid closed formula", format!("Err({e}) on `{text}`"), detail(&e, vec![]));
+            return out;
+        }
+        Call::Panic(p) => {
+            out.violate(&libg::panic_signature(&p), format!("panic on `{text}`: {p}"), detail(&p, vec![]));
+            return out;
+        }
+    };
+    let ctx = graph.symbolic_context();
+    let f = ctx.find_network_parameter("f").unwrap();
+    let table = ctx.get_explicit_function_table(f);
+    let other = gen_cond(rng, m, 2);
+    let constant = if rng.coin() { Expr::Or(Box::new(Expr::Var(0)), Box::new(Expr::Not(Box::new(Expr::Var(0))))) } else { Expr::And(Box::new(Expr::Var(0)), Box::new(Expr::Not(Box::new(Expr::Var(0))))) };
+    let mut answers = Vec::new();
+    for g in [&cond, &other, &constant] {
+        let interp = Interp::default();
+        let colour: Vec<(biodivine_lib_bdd::BddVariable, bool)> = table
+            .clone()
+            .into_iter()
+            .map(|(inputs, var)| {
+                let state: u32 = inputs.iter().enumerate().map(|(i, b)| if *b { 1u32 << i } else { 0 }).sum();
+                (var, g.eval(state, &interp))
+            })
+            .collect();
+        let here = wide_states(&graph, coloured.as_bdd(), &names, &colour);
+        let inst_aeon = wide_aeon(m, &g.render(&names), u_negated);
+        let inst = libg::guarded(|| -> Result<_, String> {
+            let bn = BooleanNetwork::try_from(inst_aeon.as_str())?;
+            let ig = get_extended_symbolic_graph(&bn, 1)?;
+            let r = model_check_formula_dirty(&text, &ig)?;
+            Ok((ig, r))
+        });
+        let (ig, ires) = match inst {
+            Ok(Ok(x)) => x,
+            Ok(Err(e)) => {
+                out.violate("error on a valid closed formula", format!("instantiated wide network: Err({e})"), detail(&e, vec![("instantiated_network", J::s(&inst_aeon))]));
+                return out;
+            }
+            Err(p) => {
+                out.violate(&libg::panic_signature(&p), format!("instantiated wide network: panic {p}"), detail(&p, vec![("instantiated_network", J::s(&inst_aeon))]));
+                return out;
+            }
+        };
+        let there = wide_states(&ig, ires.as_bdd(), &names, &[]);
+        out.count("wide_colours_compared");
+        if here != there {
+            out.violate(
+                "answer for a colour differs from the answer on the instantiated network",
+                format!("`{text}` on the wide network, colour f = {}: coloured result gives {} states, the instantiated network gives {}", g.render(&names), here.len(), there.len()),
+                detail("wide: coloured vs instantiated", vec![("instantiated_network", J::s(&inst_aeon)), ("states_for_colour", J::s(&format!("{here:?}"))), ("states_on_instance", J::s(&format!("{there:?}")))]),
+            );
+            return out;
+        }
+        answers.push(here);
+    }
+    out.nontrivial = answers.windows(2).any(|w| w[0] != w[1]);
+    if out.nontrivial {
+        out.count("wide_cases_with_colour_specific_answer");
+        out.sample = Some(detail("held", vec![("colours_compared", J::Int(3))]));
     }
     out
 }
